@@ -81,6 +81,13 @@ func newC19Run() (*c19Run, error) {
 	r := &c19Run{dir: d, export: filepath.Join(d, "export"), twin: filepath.Join(d, "twin")}
 	os.Mkdir(r.export, 0755)
 	os.Mkdir(r.twin, 0755)
+	// both trees start with a dot-file and a dot-directory with one file in
+	// it (they are ordinary names to 9P: listings must show them)
+	for _, root := range []string{r.export, r.twin} {
+		os.WriteFile(filepath.Join(root, ".profile"), []byte("dot"), 0644)
+		os.Mkdir(filepath.Join(root, ".cfg"), 0755)
+		os.WriteFile(filepath.Join(root, ".cfg", "x"), []byte("cfg"), 0600)
+	}
 	ctx := context.Background()
 	r.sess = p9p.SFileSys(ufs.NewServer(ctx, r.export))
 	if _, err := r.sess.Attach(ctx, 0, p9p.NOFID, "u", ""); err != nil {
